@@ -103,7 +103,9 @@ def run(tier, rng, C):
                                 nontrivial=lambda l, o: len(o) > 6)
         v += vv
         stats = st if stats is None else C.merge_stats(stats, st)
-    for k in (200, 1000, 256, 256 + 16, 65536 + 16):
+    from gen import srclit as SL
+    lit_sizes = [k for k in SL.sizes(limit=2 * 1048576, lo=97)]
+    for k in [200, 1000, 256, 256 + 16, 65536 + 16] + lit_sizes:
         vv, st = C.differential("C12", [("CSRF %d" % k, "csrf-long")], monitor=lambda l, o: "CSRFM " + l[5:] + " | " + o,
                                 canon=lambda l, o: o.split(" ")[0], shrinkable=False)
         v += vv
@@ -114,7 +116,7 @@ def run(tier, rng, C):
     draws = 48
     fails = []
     per_n = {}
-    for n in list(range(1, 97)) + [200]:
+    for n in list(range(1, 97)) + [200] + [k for k in lit_sizes if k <= 70000]:
         toks = [o.split(" ")[1] for o in C.run_impl(["CSRF %d" % n for _ in range(draws)]) if o.startswith("ok ")]
         raws = [dec(C.untb(t).decode()) for t in toks]
         const = [i for i in range(n) if len({r[i] for r in raws if len(r) == n}) < 2]
